@@ -47,6 +47,123 @@ def decode_sphinx(text: bytes, quote: int):
     return bytes(out), None
 
 
+def _make_global(repo, chk, gf):
+    """make_global, interpreted on typed initialisers of every kind (it only formats compile-time values): which
+    directive a constant array / zero-initialised array / scalar becomes, with which items, under which label, in
+    which section, and which length the reference records."""
+    ns = gf.module_ns()
+    it = repo.__dict__['_gen_ns']['it']
+    CG, asm, A, DT = ns['CodeGen'], ns['asm'], ns['ast'], ns['DataType']
+    lex = it.load('hidc/lexer/__init__.py')
+    span = lex['Span'](lex['Cursor'](0, 0), lex['Cursor'](0, 1))
+    AT = A.ArrayType
+
+    def fresh(ws):
+        g = object.__new__(CG)
+        g.word_size = ws
+        g.stack = ns['StackPoint']()
+        g.state_data, g.const_data, g.numbered_labels, g.string_labels = {}, {}, {}, {}
+        return g
+
+    def items(d):
+        return [getattr(x, 'data', getattr(x, 'label_name', x)) for x in d.items]
+    n = 0
+    for ws in (2, 3):
+        M = (1 << (8 * ws)) - 1
+        bools = [i % 3 == 0 for i in range(11)]
+        packed = []
+        for i, bit in enumerate(bools):
+            if i % 8 == 0:
+                packed.append(0)
+            packed[-1] |= int(bit) << (i % 8)
+        lits = [
+            ('int', AT(DT.INT, True), (A.IntValue(300, span), A.IntValue(-2, span), A.IntValue(0, span)), 'WordDirective', [300, -2, 0]),
+            ('byte', AT(DT.BYTE, True), (A.ByteValue(7, span), A.ByteValue(255, span)), 'ByteDirective', [7, 255]),
+            ('bool', AT(DT.BOOL, True), tuple(A.BoolValue(x, span) for x in bools), 'ByteDirective', packed),
+            ('one bool', AT(DT.BOOL, True), (A.BoolValue(True, span),), 'ByteDirective', [1]),
+            ('string', AT(DT.STRING, True), (A.StringValue(b'hi', span), A.StringValue(b'', span)), 'WordDirective', None),
+        ]
+        for label, T, vals, want_dir, want_items in lits:
+            for const in (True, False):
+                g = fresh(ws)
+                key = f'make_global[ArrayLiteral {label}, const={const}, w={ws}]'
+                try:
+                    init = A.ArrayLiteral(vals, span).coerce(T)
+                    ref = g.make_global(init, const, 'p')
+                except Exception as e:      # noqa: BLE001
+                    chk.fail('C13.B3', key, f'{type(e).__name__}: {e}', GEN)
+                    continue
+                n += 1
+                here = g.const_data if const else g.state_data
+                other = g.state_data if const else g.const_data
+                d = here.get(ref.origin)
+                ok = d is not None and not other and len(here) == 1 and type(d).__name__ == want_dir and \
+                    (want_items is None or items(d) == [(x & M if isinstance(x, int) and x < 0 and False else x) for x in want_items]) and \
+                    getattr(ref.length, 'data', None) == len(vals) and ref.type.el_type == T.el_type
+                if want_items is None and ok:
+                    ok = len(d.items) == len(vals) and all(type(x).__name__ == 'LabelRef' for x in d.items) and \
+                        sorted(g.string_labels) == sorted({v.data for v in vals})
+                chk.expect(ok, 'C13.B3', key, f'directive {type(d).__name__ if d is not None else None} items '
+                           f'{items(d) if d is not None else None} (expected {want_dir} {want_items}), recorded length '
+                           f'{getattr(ref.length, "data", None)} (expected {len(vals)})', GEN)
+        # zero-initialised arrays: reserved bytes = array_size(element, length); negative / oversized lengths rejected
+        for el, size in ((DT.INT, lambda k: k * ws), (DT.BYTE, lambda k: k), (DT.BOOL, lambda k: (k + 7) >> 3), (DT.STRING, lambda k: k * ws)):
+            for k in (0, 1, 5, 9):
+                g = fresh(ws)
+                key = f'make_global[ArrayInitializer {el.value}[{k}], w={ws}]'
+                try:
+                    ref = g.make_global(A.ArrayInitializer(AT(el, False), A.IntValue(k, span)), False, 'p')
+                except Exception as e:      # noqa: BLE001
+                    chk.fail('C13.B3', key, f'{type(e).__name__}: {e}', GEN)
+                    continue
+                n += 1
+                d = g.state_data.get(ref.origin)
+                ok = d is not None and type(d).__name__ == 'ZeroDirective' and getattr(d.size, 'data', None) == size(k) and \
+                    getattr(ref.length, 'data', None) == k and type(d.size).__name__ == 'IntLiteral'
+                chk.expect(ok, 'C13.B3', key, f'reserves {getattr(getattr(d, "size", None), "data", None)} bytes (expected {size(k)}), '
+                           f'records length {getattr(ref.length, "data", None)}', GEN)
+            for k in (-1, -3, -8, -(M + 1) // 2, M + 1 + 5):
+                g = fresh(ws)
+                key = f'make_global[ArrayInitializer {el.value}[{k if abs(k) < 100 else "huge"}], w={ws}]'
+                try:
+                    ref = g.make_global(A.ArrayInitializer(AT(el, False), A.IntValue(k, span)), False, 'p')
+                    got = getattr(ref.length, 'data', None)
+                    d = g.state_data.get(ref.origin)
+                    # accepted: then the recorded length is the unsigned reduction and the storage matches it
+                    ok = got == (k & M) and d is not None and getattr(d.size, 'data', None) == size(k & M)
+                    detail = f'accepted with length {got}, reserves {getattr(getattr(d, "size", None), "data", None)} bytes'
+                except ns['CodeGenError']:
+                    ok, detail = True, 'rejected'
+                except Exception as e:      # noqa: BLE001
+                    ok, detail = False, f'{type(e).__name__}: {e}'
+                n += 1
+                chk.expect(ok, 'C13.B3', key, detail + ' - a length outside 0..max must be rejected or stored as the unsigned length '
+                           'the reserved storage was sized with', GEN)
+        # scalars
+        for label, v, want_dir, want_acc, item in (('int', A.IntValue(70000, span), 'WordDirective', 'State', 70000 & M),
+                                                   ('negative int', A.IntValue(-5, span), 'WordDirective', 'State', None),
+                                                   ('byte', A.ByteValue(9, span), 'ByteDirective', 'StateByte', 9),
+                                                   ('bool', A.BoolValue(True, span), 'ByteDirective', 'StateByte', 1),
+                                                   ('string', A.StringValue(b'hi', span), 'WordDirective', 'State', None)):
+            g = fresh(ws)
+            key = f'make_global[{label} scalar, w={ws}]'
+            try:
+                acc = g.make_global(v, False, 'p')
+                imm = fresh(ws).make_global(v, True, 'p')
+            except Exception as e:      # noqa: BLE001
+                chk.fail('C13.B3', key, f'{type(e).__name__}: {e}', GEN)
+                continue
+            n += 1
+            d = g.state_data.get(getattr(acc, 'immed', None))
+            ok = type(acc).__name__ == want_acc and d is not None and type(d).__name__ == want_dir and len(d.items) == 1 and \
+                not g.const_data and isinstance(imm, asm.Immediate) and d.items[0] == imm
+            if ok and item is not None:
+                ok = (getattr(d.items[0], 'data', None) - item) % (M + 1) == 0
+            chk.expect(ok, 'C13.B3', key, f'mutable: {type(acc).__name__} over {type(d).__name__ if d is not None else None}'
+                       f'{items(d) if d is not None else ""}; constant: {imm!r}', GEN)
+    chk.floor('make_global evaluations', n, 100)
+
+
 def run(repo, chk):
     chk.explanation = (
         'Constant bytes reach the assembly through one escaping function and three call sites.  The function is '
@@ -202,16 +319,13 @@ def run(repo, chk):
     c04._scale(repo, Remap(chk, {'C04.A4': 'C13.B1'}), gf)
 
     # ---------------- B2 ----------------------------------------------------------------
-    gl = gf.methods['gen_lines']
-    loops = [n for n in ast.walk(gl) if isinstance(n, ast.For) and src(n.iter) == 'self.string_labels.items()']
-    ok = len(loops) == 1
-    if ok:
-        body = [src(s) for s in loops[0].body]
-        ok = src(loops[0].target) == '(string, label)' and body == [
-            'yield from asm.Label(label).lines()',
-            'yield from asm.WordDirective(asm.IntLiteral(len(string))).lines()',
-            'yield from asm.AsciiDirective(string).lines()']
-    chk.expect(ok, 'C13.B2', 'gen_lines::string table', 'each string must be emitted as label, word(len(string)), .ascii string', GEN)
+    lay0 = gf.layout()
+    i = lay0.index(b'str_0:') if b'str_0:' in lay0 else -1
+    want = [b'str_0:', b'.word 2', b'.ascii "zz"', b'str_1:', b'.word 1', b'.ascii "a"']
+    sec = [k for k, l in enumerate(lay0[:max(i, 0)]) if l.startswith(b'%section')]
+    ok = i >= 0 and lay0[i:i + 6] == want and sec and lay0[sec[-1]] == b'%section const'
+    chk.expect(ok, 'C13.B2', 'gen_lines::string table', 'each string must be emitted in the const section as label, word(len(string)), '
+               f'.ascii string: {lay0[max(i, 0):max(i, 0) + 6]}', GEN)
     lfs = gf.methods['label_for_string']
     t = src(lfs)
     chk.expect('self.string_labels[data]' in t and "self.add_label('string')" in t and 'self.string_labels[data] = label' in t,
@@ -238,52 +352,7 @@ def run(repo, chk):
             break
 
     # ---------------- B3 ------------------------------------------------------------------
-    mg_paths = [(p, p.events) for p in gf.paths('make_global')]
-    n3 = 0
-    for p, ev in mg_paths:
-        if p.outcome == 'raise':
-            continue
-        arms = [e.text for e in ev if e.kind == 'case']
-        if arms and 'ast.ArrayLiteral' in arms[-1]:
-            n3 += 1
-            conds = _efg.Conds(ev)
-            dv = [src(e.value) for e in ev if e.kind == 'assign' and e.target == 'directive']
-            if conds.get('initializer.type.el_type == DataType.BOOL'):
-                want = 'asm.ByteDirective(*map(asm.IntLiteral, self.pack_bools([bool(lit.data) for lit in values])))'
-            elif conds.get('initializer.type.el_type.byte_sized'):
-                want = 'asm.ByteDirective(*values)'
-            else:
-                want = 'asm.WordDirective(*values)'
-            chk.expect(dv == [want], 'C13.B3', f'make_global[ArrayLiteral]::directive ({want.split("(")[0]})', f'{dv}', GEN)
-            call = [e for e in ev if e.kind == 'call' and e.func == 'self.add_global_array']
-            ok = len(call) == 1 and [src(a) for a in call[0].args] == ['const', 'initializer.type.el_type', 'label_prefix',
-                                                                       'len(values)', 'directive', 'initializer.span']
-            chk.expect(ok, 'C13.B3', 'make_global[ArrayLiteral]::recorded length',
-                       f'the array reference must record len(values) elements: {[src(a) for a in call[0].args] if call else None}', GEN)
-            vals = [src(e.value) for e in ev if e.kind == 'assign' and e.target == 'values']
-            chk.expect(vals == ['[self.make_global(v, const=True) for v in initializer.values]'], 'C13.B3',
-                       'make_global[ArrayLiteral]::values', f'{vals}', GEN)
-        elif arms and 'ast.ArrayInitializer' in arms[-1]:
-            call = [e for e in ev if e.kind == 'call' and e.func == 'self.add_global_array']
-            if call:
-                n3 += 1
-                a = [src(x) for x in call[0].args]
-                ok = a[:4] == ['const', 'el_type', 'label_prefix', 'length'] and \
-                    a[4] == 'asm.ZeroDirective(asm.IntLiteral(self.array_size(el_type, length)))'
-                ln = [src(e.value) for e in ev if e.kind == 'assign' and e.target == 'length']
-                ok = ok and ln == ['initializer.length.data & self.max_unsigned']
-                chk.expect(ok, 'C13.B3', 'make_global[ArrayInitializer]', f'{a} length={ln}', GEN)
-        elif arms and 'ast.PrimitiveValue' in arms[-1]:
-            rets = [src(e.value) for e in ev if e.kind == 'return']
-            if any('StateByte' in r for r in rets):
-                dd = [e.target + ' = ' + src(e.value) for e in ev if e.kind == 'assign' and e.target.startswith('self.state_data')]
-                chk.expect(dd == ['self.state_data[label] = asm.ByteDirective(ret.value.value)'], 'C13.B3',
-                           'make_global[byte scalar]', f'{dd}', GEN)
-            elif any(r == 'asm.State(label)' for r in rets):
-                dd = [e.target + ' = ' + src(e.value) for e in ev if e.kind == 'assign' and e.target.startswith('self.state_data')]
-                chk.expect(dd == ['self.state_data[label] = asm.WordDirective(ret.value.value)'], 'C13.B3',
-                           'make_global[word scalar]', f'{dd}', GEN)
-    chk.floor('make_global data paths', n3, 3)
+    _make_global(repo, chk, gf)
     # add_global_array, interpreted for both constness values and every element type at two word sizes: the directive is
     # stored under the returned label in the section matching constness, the reference is (label, IntLiteral(length))
     symns = it.load('hidc/codegen/symbols.py')
@@ -325,10 +394,14 @@ def run(repo, chk):
     ok = bool(g) and all(any(e.kind == 'cond' and e.text == 'expr.type.const' and e.truth for e in ev) for ev in g)
     chk.expect(ok, 'C13.B3', 'eval_expr[ArrayLiteral]::const route', 'only const literals of primitive values become shared data', GEN)
     # data emission loops in gen_lines keep insertion order
-    for dname in ('self.state_data.items()', 'self.const_data.items()'):
-        loops = [n for n in ast.walk(gl) if isinstance(n, ast.For) and src(n.iter) == dname]
-        ok = len(loops) == 1 and [src(s) for s in loops[0].body] == ['yield from asm.Label(label).lines()', 'yield from directive.lines()']
-        chk.expect(ok, 'C13.B3', f'gen_lines::{dname}', 'label then directive', GEN)
+    lay = gf.layout()
+    for dname, want, section in (('self.state_data.items()', [b's_b:', b'.byte 5', b's_a:', b'.word 9, 8'], b'%section state'),
+                                 ('self.const_data.items()', [b'c_z:', b'.word 3', b'c_a:', b'.zero 4'], b'%section const')):
+        i = lay.index(want[0]) if want[0] in lay else -1
+        sec = [k for k, l in enumerate(lay[:max(i, 0)]) if l.startswith(b'%section')]
+        ok = i >= 0 and lay[i:i + 4] == want and sec and lay[sec[-1]] == section
+        chk.expect(ok, 'C13.B3', f'gen_lines::{dname}', f'each item is emitted as its label followed by its directive, in insertion '
+                   f'order, inside {section.decode()}: {lay[max(i, 0):max(i, 0) + 4]}', GEN)
     # ---------------- B4 the bytes a literal denotes (lexer side, shared with C12) ------------------------
     if chk.__class__.__name__ == 'Check':
         chk.rule('C13.B5', 'writing a constant prints exactly its bytes: the library writers skip exactly the empty constant and '
